@@ -239,11 +239,28 @@ class Ctx:
                 if len(fi.params) != 1 or mname.startswith("__"):
                     continue
                 body = [st for st in fi.node.body if not (isinstance(st, ast.Expr) and isinstance(st.value, ast.Constant))]
-                if len(body) == 1 and isinstance(body[0], ast.Return) and isinstance(body[0].value, ast.Attribute) and dotted(body[0].value.value) == "self":
-                    pub = mname[4:] if mname.startswith("get_") else mname
-                    out.setdefault(body[0].value.attr, pub)
+                if len(body) == 1 and isinstance(body[0], ast.Return) and body[0].value is not None:
+                    v = body[0].value
+                    # self.f, or a plain view / copy of it: self.f.values(), list(self.f), list(self.f.values())
+                    while True:
+                        if isinstance(v, ast.Call) and isinstance(v.func, ast.Name) and v.func.id in ("list", "tuple", "set", "frozenset", "iter") and len(v.args) == 1 and not v.keywords:
+                            v = v.args[0]
+                        elif isinstance(v, ast.Call) and isinstance(v.func, ast.Attribute) and v.func.attr in ("values", "copy") and not v.args:
+                            v = v.func.value
+                        else:
+                            break
+                    if isinstance(v, ast.Attribute) and dotted(v.value) == "self":
+                        pub = mname[4:] if mname.startswith("get_") else mname
+                        out.setdefault(v.attr, pub)
         self._cache[k] = out
         return out
+
+    def field_named(self, cls_qual: str, public: str, default: str) -> str:
+        """The private field behind a public accessor (`bundles` -> `_bundles`), discovered; `default` if there is none."""
+        for f, pub in self.field_aliases(cls_qual).items():
+            if pub == public:
+                return f
+        return default
 
     def canon_field(self, cls_qual: Optional[str], attr: str) -> str:
         if cls_qual:
